@@ -12,7 +12,7 @@ TRUSTED = [
     "correspondence: extraction (ExtrOcamlBasic only), OCaml driver, Rust harness calling the real test_game_name_rules with stdout silenced",
     "HashMap seen_ids is modelled as an association list (only get / insert / contains_key are used, never iteration)",
 ]
-RULE = ("names generated from the documented grammar (capitalised words, lower-case particles, dotted acronyms, roman numerals, leading / inner / trailing numbers, digit-letter compounds, hyphenated words, apostrophes and colons, bracketed year or edition, ' - Mod' suffix); "
+RULE = ("names generated from the documented grammar (capitalised words, lower-case particles, dotted acronyms, roman numerals, leading / inner / trailing numbers, digit-letter compounds (also hyphenated to the next piece: R2-D2, WW2-Online), hyphenated words, apostrophes and colons, bracketed year or edition, ' - Mod' suffix); "
         "for each name: two probes with different wrong ids (the ids the checker itself reports), then candidate ids = each reported id, its upper-case and mixed-case forms, a truncated and an extended form, a random id; lists of 1-4 games with shared names / colliding acronyms, and lists in which a later name continues an earlier one (edition or trailing number written out as words); the shipped definitions table; "
         "non-trivial = name with a number, numeral, hyphen, bracket or mod suffix; distinct by case bytes")
 
@@ -48,7 +48,11 @@ def gen_name(r):
         elif k < 16:
             parts.append(r.choice(HYPH)); tags.add("hyphen")
         elif k < 17:
-            parts.append(r.choice(WORDS) + str(r.choice([2, 3, 64, 2142]))); tags.add("compound")
+            w = r.choice(WORDS) + str(r.choice([2, 3, 64, 2142]))
+            if r.chance(1, 3):
+                w += "-" + r.choice(WORDS + ["D2", "2", "Online"])      # letters-digits hyphenated to the next piece
+                tags.add("hyphen")
+            parts.append(w); tags.add("compound")
         elif k < 18:
             parts.append(r.choice(["'44-'45", "1944-1945", "Europe '44-'45", "2-4-6"])); tags.add("numrange")
         elif k < 19:
@@ -117,7 +121,8 @@ def gen_cases(tier, rng):
     names = {}
     for t in ("Test Game", "S.T.A.L.K.E.R", "Dino D-Day", "Grand Theft Auto XIV", "7 Days to Die", "Darkest Hour: Europe '44-'45",
               "Grand Theft Auto V - FiveM (2013)", "Just Cause 3 - Multiplayer", "Left 4 Dead", "65536 Days to Die", "1944-1945 Darkest Hour Europe (2008)",
-              "Minecraft (java)", "Unreal Tournament 2003", "", "-", "(2008)", "A - B - C", "Half-Life 2 - Deathmatch"):
+              "Minecraft (java)", "Unreal Tournament 2003", "", "-", "(2008)", "A - B - C", "Half-Life 2 - Deathmatch",
+              "R2-D2", "Left4-Dead Redux", "Formula1-Manager", "WW2-Online", "Star Wars R2-D2 Adventures", "Quake3-Arena", "A1-B", "Dead4-", "X2- Y", "Team9-5 Fortress"):
         names[t] = {"corpus"}
     while len(names) < nnames:
         n, tags = gen_name(r)
